@@ -185,7 +185,9 @@ IPV4_HOSTS = ["127.0.0.1", "0.0.0.0", "255.255.255.255", "1.2.3.4", "10.0.0.1"]
 IPV6_HOSTS = ["::1", "::", "2001:db8::1", "2001:DB8:0:0:0:0:0:1", "fe80::1%eth0", "::ffff:1.2.3.4", "0:0:0:0:0:0:0:1", "2001:0db8:0000:0000:0000:ff00:0042:8329", "FE80::A%25eth1", "1:2:3:4:5:6:7:8"]
 IPVFUTURE_HOSTS = ["v1.x", "vF.a:b", "v1a.~"]
 # bracketed texts that are NOT hosts (a bracket inside the brackets, a doubled bracket): URL texts only, never a "valid host" pool
-BRACKET_ODD_HOSTS = ["[v1.a[b]", "[v1.x:y[]", "[fe80::1%eth[]", "[[::1]", "[v1.[a]", "[::1]]", "[a@[::1]"]
+BRACKET_ODD_HOSTS = ["[v1.a[b]", "[v1.x:y[]", "[fe80::1%eth[]", "[[::1]", "[v1.[a]", "[::1]]", "[a@[::1]",
+                     # a bracket pair that SPANS the '@': opened in the userinfo, closed at an edge of the host
+                     "[user:pw@example.com]", "[u:p@]example.com", "[:@h]", "[a:b@c:d]"]
 
 
 def long_urls():
